@@ -111,5 +111,8 @@ Definition row_eqb (a b : list N) : bool :=
 Definition obs_eqb (a b : obs) : bool :=
   (length a =? length b)%nat && forallb (fun '(x, y) => row_eqb x y) (combine a b).
 
+(* a coordinator script whose clock reads left their 40 ms slot on a busy machine is reported as [[97]] by the harness
+   (after its retries): it was not observed, so there is nothing to compare (the driver counts these) *)
+Definition skipped (e : obs) : bool := match e with [[97]] => true | _ => false end.
 Definition c15_mismatches (cases : list (N * c15case * obs)) : list N :=
-  map (fun '(i, _, _) => i) (filter (fun '(_, c, e) => negb (obs_eqb (c15_model c) e)) cases).
+  map (fun '(i, _, _) => i) (filter (fun '(_, c, e) => negb (skipped e) && negb (obs_eqb (c15_model c) e)) cases).
